@@ -48,6 +48,13 @@ Theorem C13_null_ignores_setattr_refuted :
 Proof. exact null_ignores_setattr_refuted_lemma. Qed.
 Print Assumptions C13_null_ignores_setattr_refuted.
 
+(** likewise [detector.kernel = other_kernel] on MMD *)
+Theorem C13_null_ignores_setattr_mmd_refuted :
+  exists o o' ck, construct MMD [] = Ok o /\ assign_attr o "kernel" (VFun 7) = Ok o' /\ compare_kwargs o' [] = Ok ck /\
+    dget "kernel" (null_kwargs o') = Some (VFun 0) /\ dget "kernel" ck = Some (VFun 7).
+Proof. exact null_ignores_setattr_mmd_refuted_lemma. Qed.
+Print Assumptions C13_null_ignores_setattr_mmd_refuted.
+
 (** MMD: fit(X) then compare(Y) (cached E[k(x,x')]) equals the static call the callback makes on
     the pair (X, Y) — same operations in the same order, for every number system, kernel-sum and
     reduction oracle, and chunk size. *)
